@@ -148,6 +148,24 @@ class H:
     def flag(self, name):
         return bool(self.choice(name, 2))
 
+    def lazy_flag(self, name):
+        """A boolean written by a stub whose value is only decided (forked on) when the code
+        under test actually reads it."""
+        self.nfresh += 1
+        key = f"{name}#{self.nfresh}"
+        if self.mode == "sym":
+            t = z3.Real(key)
+            core.cur().add_side(z3.Or(t == 0, t == 1))
+            self.inputs.append((key, t, 0, 1))
+            return LazyBool(t)
+        if key in self.values:
+            v = bool(round(float(self.values[key])))
+        else:
+            v = bool(self.rng.randrange(2))
+            self.values[key] = float(v)
+        self.inputs.append((key, None, 0, 1))
+        return v
+
     def ufun(self, name, default):
         """Uninterpreted model function (EOS, potential...).  sym: z3 UF application;
         conc/fold: the model's value for the k-th application if replaying, else
@@ -307,6 +325,20 @@ class H:
 
 
 _MISSING = object()
+
+
+class LazyBool:
+    __slots__ = ("t",)
+
+    def __init__(self, t):
+        self.t = t
+
+    def __bool__(self):
+        return core.cur().branch(self.t == 1)
+
+    def term(self):
+        return self.t == 1
+
 
 
 def _symval(a):
